@@ -478,6 +478,28 @@ pub fn run_case(case: &[Vec<Tok>]) -> Vec<Vec<Tok>> {
                     out.push(vec![code, PANICS.load(Ordering::SeqCst) as Tok]);
                 }
                 Some(2) => out.extend(srv.dump().await),
+                Some(3) => {
+                    // probe: the broker still serves a write, a read of it, and a metadata listing
+                    let k = c.next().unwrap_or(1);
+                    let none = None;
+                    let w = tokio::time::timeout(Duration::from_secs(5), call(&srv.channel, 12, 0, k, &none, &srv.ids)).await;
+                    let mut v2 = p2::val_client::ValClient::new(srv.channel.clone());
+                    let r = tokio::time::timeout(
+                        Duration::from_secs(5),
+                        v2.get_value(p2::GetValueRequest { signal_id: v2_sig(&sig_name(12)) }),
+                    )
+                    .await;
+                    let read_ok = match r {
+                        Ok(Ok(resp)) => {
+                            resp.into_inner().data_point.and_then(|d| d.value).and_then(|v| v.typed_value)
+                                == Some(p2::value::TypedValue::Int32(k as i32))
+                        }
+                        _ => false,
+                    };
+                    let m = tokio::time::timeout(Duration::from_secs(5), call(&srv.channel, 11, 0, k, &none, &srv.ids)).await;
+                    let ok = matches!(w, Ok(0)) && read_ok && matches!(m, Ok(0));
+                    out.push(vec![900, ok as Tok, PANICS.load(Ordering::SeqCst) as Tok]);
+                }
                 _ => out.push(vec![-1]),
             }
         }
